@@ -16,11 +16,12 @@ DEV = 'nfc.clf.device'
 EXPLANATION = (
     'R1 the PN53x command-frame expressions of Chipset.command() are extracted and evaluated by the checker for every '
     'payload length 0..max on both sides of the format switch and validated by an independent reading of the PN53x frame '
-    'format (preamble, LEN/LCS, extended format, TFI, DCS, postamble); R2 the return of response data is reachable only '
-    'through the passing branch of every framing check (start code, LEN/LCS, LEN value, DCS, TFI, response code), each '
-    'failing branch raises IOError, the header offsets used by the checks are mutually consistent, and every read used by '
-    'a check is length-guarded (CFG lower bound on len(frame)); R3 the ACR122 CCID/pseudo-APDU envelope sizes and '
-    'acceptance checks; R4 the RC-S380 frame builder evaluated for every length and validated independently; R5 CRC_A / '
+    'format (preamble, LEN/LCS, extended format, TFI, DCS, postamble); R2 the response handling of Chipset.command() is '
+    'folded by the checker for well-formed normal / extended frames and for every single corruption of them (start code, '
+    'LEN / LCS, LEN value, DCS, TFI, response code, every prefix, every single byte): the data comes back for the former, '
+    'IOError(EIO) is raised for each of the latter; no data dependent part of the response is skipped, and every read used '
+    'by a check is length-guarded (CFG lower bound on len(frame)); R3 the ACR122 CCID/pseudo-APDU envelope sizes, and '
+    'ccid_xfr_block / command() folded with a modelled transport against well-formed and corrupted blocks in the same way; R4 the RC-S380 frame builder evaluated for every length and validated independently; R5 CRC_A / '
     'CRC_B parameters (initial value, complement, reflected polynomial 0x8408, bit order) and add/check sibling agreement; '
     'R6 the drivers return Type 1/2 Tag data only on the branch where the CRC check passed.  That calculate_crc computes '
     'the ISO/IEC 14443-3 CRC for every message is an arithmetic identity and is not decided.')
